@@ -84,6 +84,18 @@ def minimise(world, plan, focus, violation, max_execs=400, max_seconds=60.0):
                 n = min(len(items), n * 2)
             else:
                 n = max(2, n - 1)
+    # host-process state that turns out not to matter is put back to the plain default
+    for key, plain in (("host_optimize", 0), ("host_tz", None), ("host_logging", "off")):
+        if not budget_left():
+            break
+        if best.get(key, plain) != plain:
+            cand = copy.deepcopy(best)
+            cand[key] = plain
+            if isinstance(cand.get("cfg"), dict):
+                cand["cfg"][key] = plain
+            v = test(cand)
+            if v is not None:
+                best, best_v = cand, v
     # argument simplification
     progress = True
     while progress and budget_left():
